@@ -179,6 +179,8 @@ UnsupportedTypeSets == {
    <<TItem, TMyErr, TColor, RawT("Hostile", "type Hostile struct {\n\tV [][]*[]map[string][]int `json:\"v\"`\n}")>>,
    <<TItem, TMyErr, TColor, RawT("Hostile", "type Hostile struct {\n\tV Gen[Item] `json:\"v\"`\n\tW Gen[[]Item] `json:\"w\"`\n}\n\ntype Gen[T any] struct {\n\tX T `json:\"x\"`\n}")>>,
    <<TItem, TMyErr, TColor, RawT("Hostile", "type Hostile struct {\n\tV Pair[string, Item] `json:\"v\"`\n}\n\ntype Pair[K comparable, V any] struct {\n\tKey K `json:\"key\"`\n\tVal V `json:\"val\"`\n}")>>,
+   <<TItem, TMyErr, TColor, RawT("Hostile", "type Hostile struct {\n\tV Gen[string] `json:\"v\"`\n}\n\ntype Gen[T any] struct {\n\thidden int\n\tSkip string `json:\"-\"`\n\tValue T `json:\"value\"`\n\tMore []T `json:\"more\"`\n}")>>,
+   <<TItem, TMyErr, TColor, RawT("Hostile", "type Hostile struct {\n\tV Gen[Item, int] `json:\"v\"`\n}\n\ntype Gen[A any, B any] struct {\n\tFirst A `json:\"first\"`\n\tsecret B\n\tSecond B `json:\"second\"`\n}")>>,
    <<TItem, TMyErr, TColor, RawT("Hostile", "type Hostile = Item")>>,
    <<TItem, TMyErr, TColor, RawT("Hostile", "type Hostile uint8\n\nconst (\n\tHA Hostile = iota\n\tHB\n\tHC = HB << 2\n)")>> }
 CfgsC14 == { Cfg(en, v, FALSE, NoSec, <<"s1">>) : en \in {"gin", "fiber"}, v \in {"3.0.0", "3.1.0"} }
@@ -200,13 +202,31 @@ MethodsC09 == { MthP("POST", ps, ret, <<>>, 0) :
                   ret \in { <<"error">>, <<"p1.Item", "error">>, <<"p2.Line", "error">>, <<"[]p1.Order", "error">>, <<"*p2.Line", "error">>, <<"p2.Level", "error">> } }
 TypesC09 == { <<TItem, TMyErr, TColor, TOrder, TLine, TLevel, TCode>> }
 
+\* ---- C11: every validator rule either converter knows x applicable / inapplicable field types (one field per rule) -----------------
+RuleList == << "required", "omitempty", "email", "uuid", "ip", "ipv4", "ipv6", "hostname", "date", "datetime", "gt=1", "gte=2", "lt=9", "lte=8", "min=1", "max=7", "len=5",
+               "pattern=^a+$", "minItems=1", "maxItems=3", "uniqueItems", "enum=a|b", "oneof=a b", "unknownrule=3", "gte=2,lte=16", "required,min=3,max=40", "gt=0,lt=10,required", "enum=1|2", "oneof=1 2", "enum=a", "oneof=red blue" >>
+RuleFieldTypes == {"string", "*string", "int", "uint8", "float64", "bool", "[]string", "[]int", "p1.Color", "map[string]int", "time.Time", "[]byte"}
+RulesFields(ft) == [i \in DOMAIN RuleList |-> Fld("F" \o ToString(i), ft, "f" \o ToString(i), RuleList[i])]
+TRules(ft) == Ty("p1", "Rules", "struct", "", RulesFields(ft), <<>>)
+RuleTypeSets == { <<TItem, TMyErr, TColor, TRules(ft)>> : ft \in RuleFieldTypes }
+RuleParams(t, k) == [i \in DOMAIN RuleList |-> Prm("b" \o ToString(i), t, k, "", RuleList[i])]
+MethodsC11rules == { MthP("POST", <<Prm("e", "p1.Rules", "Body", "", "")>>, <<"p1.Rules", "error">>, <<>>, 0) }
+MethodsC11rulesP ==   { MthP("POST", RuleParams(t, "Query"), <<"error">>, <<>>, 0) : t \in {"string", "*string", "int", "float64", "[]string", "[]int", "bool", "p1.Color"} }
+                   \cup { MthP("POST", RuleParams(t, "Header"), <<"error">>, <<>>, 0) : t \in {"string", "int"} }
+                   \cup { MthP("POST", RuleParams(t, "FormField"), <<"error">>, <<>>, 0) : t \in {"string", "int", "p1.Color", "*p1.Color", "[]string"} }
+                   \cup { MthP("POST", RuleParams(t, "Path"), <<"error">>, <<>>, 0) : t \in {"string", "p1.Color"} }
+
+\* ---- C13: controllers sharing a struct NAME across packages (every by-name ordering must be broken by the package), with
+\*      parameter / response types of other packages so that import serials are handed out ------------------------------------------
+CtrlsC13 == { Ctl(pk, f, n, pre, n, <<>>) : pk \in {"p1", "p2"}, f \in {"f1", "f2"}, n \in {"AController", "BController"}, pre \in {"/a", "/b"} }
+
 \* ---- C10 / C18: every single and double perturbation of two well-formed base routes --------------------------------------
-An(k, v, al) == [kind |-> k, value |-> v, alias |-> al, validate |-> "", desc |-> ""]
+An(k, v, al) == [kind |-> k, value |-> v, alias |-> al, validate |-> "", desc |-> "", extra |-> ""]
 Sg(n, t) == [name |-> n, type |-> t]
 BaseJ == [file |-> "", verb |-> "POST", route |-> "/r/{a}", hidden |-> FALSE, deprecated |-> FALSE, sec |-> <<>>,
           sig |-> <<Sg("a", "string"), Sg("b", "*int"), Sg("c", "string"), Sg("e", "p1.Item")>>,
           anns |-> <<An("Path", "a", ""), An("Query", "b", ""), An("Header", "c", "x-c"), An("Body", "e", "")>>,
-          ret |-> <<"p1.Item", "error">>, errors |-> <<E(500)>>, response |-> 0, desc |-> "base", ptag |-> ""]
+          ret |-> <<"p1.Item", "error">>, errors |-> <<E(500)>>, response |-> 0, desc |-> "base", ptag |-> "", verbProps |-> ""]
 BaseF == [BaseJ EXCEPT !.route = "/r/{id}/x", !.sig = <<Sg("ctx", "context.Context"), Sg("a", "int"), Sg("d", "string")>>,
                        !.anns = <<An("Path", "a", "id"), An("FormField", "d", "")>>, !.ret = <<"error">>]
 Rev(sq) == [j \in 1..Len(sq) |-> sq[Len(sq) + 1 - j]]
@@ -215,7 +235,7 @@ BaseJr == [BaseJ EXCEPT !.anns = Rev(BaseJ.anns), !.desc = "base, annotations re
 BaseFr == [BaseF EXCEPT !.anns = Rev(BaseF.anns), !.desc = "base, annotations reversed"]
 \* two path parameters (several diagnostics of one kind on one route)
 BaseP == [BaseJ EXCEPT !.route = "/r/{a}/{b}", !.sig = <<Sg("a", "string"), Sg("b", "int")>>, !.anns = <<An("Path", "a", ""), An("Path", "b", "")>>, !.ret = <<"error">>]
-BadAlias(a, n) == [kind |-> a.kind, value |-> a.value, alias |-> "", validate |-> "", desc |-> "", rawProps |-> "{name: " \o ToString(n) \o "}"]
+BadAlias(a, n) == [kind |-> a.kind, value |-> a.value, alias |-> "", validate |-> "", desc |-> "", extra |-> "", rawProps |-> "{name: " \o ToString(n) \o "}"]
 Rm(sq, i) == [j \in 1..(Len(sq) - 1) |-> IF j < i THEN sq[j] ELSE sq[j + 1]]
 Tag(b, t) == IF b.ptag = "" THEN t ELSE b.ptag \o "+" \o t
 Perturb1(b) ==
@@ -237,10 +257,17 @@ Perturb1(b) ==
   \cup { [b EXCEPT !.anns = [j \in DOMAIN b.anns |-> IF j = i THEN BadAlias(b.anns[j], j) ELSE b.anns[j]], !.ptag = Tag(b, "badAlias:" \o b.anns[i].kind)] : i \in DOMAIN b.anns }
   \cup { [b EXCEPT !.anns = [j \in DOMAIN b.anns |-> IF b.anns[j].kind = "Path" THEN BadAlias(b.anns[j], j) ELSE b.anns[j]], !.ptag = Tag(b, "badAliasAllPaths")] }
 Perturb2(b) == UNION {Perturb1(x) : x \in Perturb1(b)}
+\* lint material: a property the annotation does not know (a warning at most) - the route stays exactly as well-linked as it was.
+\* Combined with every error perturbation (a warning on an annotation must not mask an error on the same or another annotation)
+Stray(b) ==
+       { [b EXCEPT !.anns[i].extra = "example: \"abc\"", !.ptag = Tag(b, "strayProp:" \o b.anns[i].kind)] : i \in DOMAIN b.anns }
+  \cup { [b EXCEPT !.verbProps = "note: \"x\"", !.ptag = Tag(b, "strayVerbProp")] }
+PerturbMask(b) == UNION {Perturb1(x) : x \in Stray(b)}
 CfgsC10 == { Cfg("gin", "3.0.0", FALSE, NoSec, <<"s1">>) }
 CtrlsC10 == { Ctl("p1", "f1", "AController", pre, "A", <<>>) : pre \in {"/a", "/a/{t}"} }
 MethodsC10single == {BaseJ, BaseF, BaseJr, BaseFr, BaseP} \cup Perturb1(BaseJ) \cup Perturb1(BaseF) \cup Perturb1(BaseJr) \cup Perturb1(BaseFr) \cup Perturb1(BaseP)
 MethodsC10double == Perturb2(BaseJ) \cup Perturb2(BaseF) \cup Perturb2(BaseJr)
+MethodsC10mask == Stray(BaseJ) \cup Stray(BaseF) \cup Stray(BaseP) \cup PerturbMask(BaseJ) \cup PerturbMask(BaseF) \cup PerturbMask(BaseP)
 
 \* ---- model checking of the session machine: small input space, every schedule ------------------------------------------
 CfgsM == { Cfg("gin", v, e, NoSec, <<"s1">>) : v \in {"3.0.0", "3.1.0"}, e \in BOOLEAN } \cup { Cfg("nope", "3.0.0", FALSE, NoSec, <<"s1">>) }
